@@ -44,7 +44,9 @@ Fixpoint last_row (l : list crow) : option crow :=
 (* [h'] = history ++ candidate (cep/eval.go rowsLabels appends the candidate with its label;
    resolveSymbolField reads the candidate first when its label is the symbol). A comparison with
    NULL (no row labelled X; AVG of nothing) is not true; SUM of nothing is 0, COUNT is 0. Column v
-   holds small integers, so the float64 quotient of AVG compares like the exact one. *)
+   holds small integers, so the float64 quotient of AVG compares like the exact one. The rows of the
+   cases judged with these conditions always carry column v ([r_vnull] is not read here); column c
+   may be absent (class code 5, [cls_ok]). *)
 Definition agg_ok (d : adef) (h' : lhist) (r : crow) : bool :=
   let xs := rows_of (a_var d) h' in
   match a_kind d with
@@ -63,7 +65,7 @@ Definition hprev (h : lhist) : option crow := last_row (map fst h).
 Definition lsat (defs : list adef) (h : lhist) (r : crow) (v : N) : bool :=
   match nth_error defs (N.to_nat v) with
   | None => true
-  | Some d => N.testbit (d_mask (a_base d)) (r_cls r) && cmp_ok (d_cmp (a_base d)) (hprev h) r
+  | Some d => cls_ok (d_mask (a_base d)) (r_cls r) && cmp_ok (d_cmp (a_base d)) (hprev h) r
               && agg_ok d (h ++ [(r, v)]) r
   end.
 
